@@ -221,6 +221,12 @@ def reuses : Option Reuses :=
   | some n, some w, some r => some { node := n, way := w, rel := r }
   | _, _, _ => none
 
+/-- the reuse discipline under which a filtered scan is the filter of the unfiltered one (`Props.C08.reuses_eq`) -/
+def specReuses : Reuses :=
+  { node := { accept := [("Visible", .true_)], reject := [("Visible", .true_), ("Tags", .emptied)] },
+    way := { accept := [("Visible", .true_)], reject := [("Visible", .true_), ("Nodes", .emptied), ("Tags", .emptied)] },
+    rel := { accept := [("Visible", .true_)], reject := [("Visible", .true_), ("Members", .emptied), ("Tags", .emptied)] } }
+
 /-- one primitive group as `scanPrimitiveGroup` handles it: a skipped kind is not decoded at all -/
 def scanGroup (ru : Reuses) (s : Select) (gran dg latOff lonOff : Int) (st : List String) : Group → Option (List Obj)
   | .dense d =>
